@@ -19,6 +19,34 @@ CHECKS = {
         note="Same bounds and trusted base as C01; enum leaves fork per member, sign handling is if-converted (declared AST transform); known finding D15 (enum without zero member) is reported as KNOWN-FINDING via its cause key.",
         design="6/C02",
     ),
+    "C05": dict(
+        category="translation_validation",
+        technique="symbolic execution of the OLD generated decoder on the specified wire of the NEW schema (z3 BV), unsat per evolution",
+        text="For every evolution (single steps and two-step chains of the two permitted extension steps on every extensible node of the family) the old version's real generated decoder runs symbolically on the specified encoding of the new version's symbolic values; z3 proves every old leaf equals the encoded value; models are replayed natively (new real encoder -> old real decoder).",
+        note="Bounded family F_evo; runtimes covered are listed in evidence coverage.parts (Python now; C via LLVM-IR interpreter and Go via Go-source interpreter as those engines land).",
+        design="6/C05",
+    ),
+    "C07": dict(
+        category="translation_validation",
+        technique="symbolic execution with unconstrained 128-bit integers (z3 BV): out bytes == layout of low n bits",
+        text="The real Python encoder runs on messages whose integer leaves are free 128-bit ints; z3 proves the output equals the specified layout of each leaf's low n bits (no bit of another field or of padding changes), the length equals ceil(N/8) and the emitted BYTES_LENGTH equals ceil(N/8).",
+        note="Python part; C memory-containment / arbitrary-storage part is added with the IR interpreter (see coverage.parts). Sanitizer and guard-zone builds named in the quantifier are not used (dynamic technique).",
+        design="6/C07",
+    ),
+    "C12": dict(
+        category="translation_validation",
+        technique="differential symbolic execution of two generated encoders on shared z3 variables, unsat bytes-differ query",
+        text="For each pair (schema, rewritten schema) of F_rw both real generated Python encoders are executed symbolically on corresponding leaves; z3 proves equal length and equal bytes for all values, without any reference model; models are replayed natively on both.",
+        note="Bounded family F_rw (11 rewrites x ~20 bases + seeded random bases, compositions of 2-3).",
+        design="6/C12",
+    ),
+    "C14": dict(
+        category="translation_validation",
+        technique="symbolic execution per grid cell (z3 BV): encode == spec and round trip for ALL values of the leaf",
+        text="The property's own finite space {bool, byte, uint1..64, int1..64} x offset 0..7 x 6 positions is enumerated (thorough: completely; quick: fixed slice); for each cell one symbolic run proves encode == specified bits and decode(encode(v)) == v with pad/tail untouched for every value, which subsumes the basis values.",
+        note="Runtimes covered are listed in evidence coverage.parts (Python now; C LE/BE and -O generator, Go as the engines land).",
+        design="6/C14",
+    ),
 }
 
 NOT_APPLICABLE = {
@@ -62,7 +90,7 @@ def main():
             "add_only": True,
         },
         "engines": [
-            {"name": "pysym", "path": "vlib/pysym.py", "serves_properties": ["C01", "C02"], "kind_free_text": "DART-style symbolic execution of the real Python sources with z3 proxies (BV-192 / Int)"},
+            {"name": "pysym", "path": "vlib/pysym.py", "serves_properties": ["C01", "C02", "C05", "C07", "C12", "C14"], "kind_free_text": "DART-style symbolic execution of the real Python sources with z3 proxies (BV-192 / Int)"},
         ],
         "checks": checks,
         "not_applicable": na,
